@@ -196,6 +196,12 @@ def sortBy {α : Type} (lt : α → α → Bool) (l : List α) : List α := l.fo
 
 def keyNum (k : String) : Nat := ((k.drop 1).toString.toNat?).getD 0
 
+/-- the fake cluster answers the metadata lookup for a topic named nope<code> with that error code -/
+def metaCode (c : CDecl) (i : Nat) : String :=
+  match c.msgs[i]? with
+  | some m => if m.topic.startsWith "nope" then "k" ++ (m.topic.drop 4).toString else "k3"
+  | none => "k3"
+
 def resultStr (r : Option Result) : String :=
   match r with
   | none => "pending"
@@ -211,7 +217,9 @@ def resultStr (r : Option Result) : String :=
 def predict (sc : Scenario) (s : State) : String :=
   let rets := (sortBy (fun (a b : CDecl) => a.id < b.id) sc.calls).map (fun c =>
     match s.calls c.id with
-    | some C => s!"c{c.id} {resultStr C.result}"
+    | some C => match C.result with
+      | some (.rejected .metadata i) => s!"c{c.id} {metaCode c i}"
+      | r => s!"c{c.id} {resultStr r}"
     | none => s!"c{c.id} closed")
   let tps := sortBy (fun (a b : TP) => a.1 < b.1 || (a.1 == b.1 && a.2 < b.2)) (s.tps.filter (fun tp => !(s.log tp).isEmpty))
   let logs := tps.map (fun tp => s!"{tp.1}/{tp.2} " ++ ",".intercalate ((s.log tp).map (fun e => msgKey sc e.msg)))
